@@ -67,6 +67,12 @@ model/Inflight.vos model/Inflight.vok model/Inflight.required_vos: model/Infligh
 model/Check09.vo model/Check09.glob model/Check09.v.beautified model/Check09.required_vo: model/Check09.v model/Bytes.vo model/Inflight.vo
 model/Check09.vio: model/Check09.v model/Bytes.vio model/Inflight.vio
 model/Check09.vos model/Check09.vok model/Check09.required_vos: model/Check09.v model/Bytes.vos model/Inflight.vos
+model/Cache.vo model/Cache.glob model/Cache.v.beautified model/Cache.required_vo: model/Cache.v gen/Params.vo model/Bytes.vo
+model/Cache.vio: model/Cache.v gen/Params.vio model/Bytes.vio
+model/Cache.vos model/Cache.vok model/Cache.required_vos: model/Cache.v gen/Params.vos model/Bytes.vos
+model/Check20.vo model/Check20.glob model/Check20.v.beautified model/Check20.required_vo: model/Check20.v gen/Params.vo model/Bytes.vo model/Cache.vo
+model/Check20.vio: model/Check20.v gen/Params.vio model/Bytes.vio model/Cache.vio
+model/Check20.vos model/Check20.vok model/Check20.required_vos: model/Check20.v gen/Params.vos model/Bytes.vos model/Cache.vos
 model/Check12.vo model/Check12.glob model/Check12.v.beautified model/Check12.required_vo: model/Check12.v gen/Params.vo model/Bytes.vo model/Crc32c.vo model/Id.vo model/Node.vo model/BSearch.vo model/Closest.vo model/RTable.vo model/Check11.vo
 model/Check12.vio: model/Check12.v gen/Params.vio model/Bytes.vio model/Crc32c.vio model/Id.vio model/Node.vio model/BSearch.vio model/Closest.vio model/RTable.vio model/Check11.vio
 model/Check12.vos model/Check12.vok model/Check12.required_vos: model/Check12.v gen/Params.vos model/Bytes.vos model/Crc32c.vos model/Id.vos model/Node.vos model/BSearch.vos model/Closest.vos model/RTable.vos model/Check11.vos
@@ -142,3 +148,12 @@ proofs/InflightProofs.vos proofs/InflightProofs.vok proofs/InflightProofs.requir
 properties/C09.vo properties/C09.glob properties/C09.v.beautified properties/C09.required_vo: properties/C09.v model/Bytes.vo model/Inflight.vo proofs/InflightProofs.vo
 properties/C09.vio: properties/C09.v model/Bytes.vio model/Inflight.vio proofs/InflightProofs.vio
 properties/C09.vos properties/C09.vok properties/C09.required_vos: properties/C09.v model/Bytes.vos model/Inflight.vos proofs/InflightProofs.vos
+proofs/CacheProofs.vo proofs/CacheProofs.glob proofs/CacheProofs.v.beautified proofs/CacheProofs.required_vo: proofs/CacheProofs.v gen/Params.vo model/Bytes.vo model/Cache.vo model/Check20.vo
+proofs/CacheProofs.vio: proofs/CacheProofs.v gen/Params.vio model/Bytes.vio model/Cache.vio model/Check20.vio
+proofs/CacheProofs.vos proofs/CacheProofs.vok proofs/CacheProofs.required_vos: proofs/CacheProofs.v gen/Params.vos model/Bytes.vos model/Cache.vos model/Check20.vos
+properties/C20.vo properties/C20.glob properties/C20.v.beautified properties/C20.required_vo: properties/C20.v gen/Params.vo model/Bytes.vo model/Cache.vo model/Check20.vo proofs/CacheProofs.vo
+properties/C20.vio: properties/C20.v gen/Params.vio model/Bytes.vio model/Cache.vio model/Check20.vio proofs/CacheProofs.vio
+properties/C20.vos properties/C20.vok properties/C20.required_vos: properties/C20.v gen/Params.vos model/Bytes.vos model/Cache.vos model/Check20.vos proofs/CacheProofs.vos
+properties/C06.vo properties/C06.glob properties/C06.v.beautified properties/C06.required_vo: properties/C06.v model/Bytes.vo model/Inflight.vo model/PutQuery.vo proofs/InflightProofs.vo proofs/PutQueryProofs.vo
+properties/C06.vio: properties/C06.v model/Bytes.vio model/Inflight.vio model/PutQuery.vio proofs/InflightProofs.vio proofs/PutQueryProofs.vio
+properties/C06.vos properties/C06.vok properties/C06.required_vos: properties/C06.v model/Bytes.vos model/Inflight.vos model/PutQuery.vos proofs/InflightProofs.vos proofs/PutQueryProofs.vos
